@@ -11,8 +11,8 @@ import (
 type ImportProg struct {
 	Mods  []ImportMod  `json:"mods"`
 	Main  []ImportStmt `json:"main"`
-	After []ImportStmt `json:"after"` // run in the same session after main, even if main raised
-	Path  []string     `json:"path"`  // sys.path directories (lib0, lib1)
+	After []ImportStmt `json:"after"`          // run in the same session after main, even if main raised
+	Path  []string     `json:"path"`           // sys.path directories (lib0, lib1)
 	Late  []ImportMod  `json:"late,omitempty"` // modules whose files appear only at run time (fs_add) or live in a directory that enters sys.path later
 }
 
@@ -44,7 +44,7 @@ func GenImport(r *simrt.Rand, faultsOK bool) *ImportProg {
 	if r.Chance(1, 3) {
 		p.Path = append(p.Path, "lib1")
 	}
-	nm := 1 + r.Intn(5)
+	nm := 1 + r.Intn(5+3*(Scale-1))
 	id := 0
 	next := func() int { id++; return id }
 	names := []string{}
@@ -127,7 +127,7 @@ func GenImport(r *simrt.Rand, faultsOK bool) *ImportProg {
 		k := r.Intn(len(p.Mods))
 		p.Mods[k].Fault = []string{"eio-stat", "eio-read", "torn", "vanish"}[r.Intn(4)]
 	}
-	nmain := 2 + r.Intn(8)
+	nmain := 2 + r.Intn(8*Scale)
 	for j := 0; j < nmain; j++ {
 		switch x := r.Intn(12); {
 		case x < 7:
@@ -198,7 +198,7 @@ func (p *ImportProg) renderMod(m ImportMod) string {
 	var b strings.Builder
 	me := m.Dir + "/" + m.Name
 	b.WriteString("from simlog import log, exc_name\n")
-	fmt.Fprintf(&b, "log(\"exec\", \"%s\")\n", me)
+	fmt.Fprintf(&b, "log(\"exec\", \"%s\", __name__)\n", me)
 	fmt.Fprintf(&b, "x = \"x-%s\"\n_p = \"p-%s\"\nh = \"h-%s\"\nval = 0\n", m.Name, m.Name, m.Name)
 	if m.All != nil {
 		qs := make([]string, len(m.All))
@@ -279,6 +279,8 @@ func renderImportStmt(b *strings.Builder, s ImportStmt, me string) {
 			fmt.Fprintf(b, "try:\n    %s\nexcept (NameError, AttributeError) as _e:\n    log(%s, \"probe\", exc_name(_e))\n", probe, tag)
 		}
 		if s.Form == "star" {
+			// a star import must not clobber the importer's own identity
+			fmt.Fprintf(b, "log(%s, \"star-name\", __name__)\n", tag)
 			for _, n := range []string{"x", "_p", "h", "val"} {
 				fmt.Fprintf(b, "try:\n    log(%s, \"star\", \"%s\", %s)\nexcept NameError:\n    log(%s, \"star\", \"%s\", \"unbound\")\n", tag, n, n, tag, n)
 			}
